@@ -6,6 +6,7 @@ import (
 	"errors"
 	"fmt"
 	"io"
+	"math"
 	"net/http"
 	"net/http/httptest"
 	"strconv"
@@ -261,6 +262,31 @@ func reqOracle(c *Ctx, op string, a map[string]string, flat []byte, got [][]byte
 		}
 	}
 	if proto == "connect" && kind == "unary" {
+		// the whole body is the message
+		if a["tail"] != "eof" || a["ct2"] == "1" {
+			return
+		}
+		decoded, bad := flat, ""
+		if max > 0 && len(flat) > max {
+			bad = "oversize"
+		} else if sent == "rle" && len(flat) > 0 {
+			d, ok := rleExpand(flat, 1<<22)
+			if !ok {
+				bad = "corrupt"
+			} else if max > 0 && len(d) > max {
+				bad = "oversize"
+			}
+			decoded = d
+		}
+		if bad == "" && len(decoded) > 0 && decoded[0] == 0xEE {
+			bad = "undecodable"
+		}
+		switch {
+		case bad != "" && runs > 0:
+			c.Fail("req-bad-message-delivered", op, ans, "user code received a message that is "+bad)
+		case bad == "" && runs > 0 && len(got) > 0 && string(got[0]) != string(decoded):
+			c.Fail("req-message-altered", op, ans, "user code received a message that differs from the decoded payload")
+		}
 		return
 	}
 	// walk the frames independently
@@ -357,10 +383,31 @@ func streamReq(c *Ctx) {
 					}
 				}
 			}
+			// the largest limits there are, with plain, compressed and undecodable payloads:
+			// nothing wraps around, the message arrives as sent or is rejected
+			for _, max := range []int{math.MaxInt64, math.MaxInt64 - 1} {
+				for _, sent := range []string{"", "rle"} {
+					for _, p := range [][]byte{{1, 2, 3}, {0xEE, 1}, bytes.Repeat([]byte{5}, 40)} {
+						wire := p
+						fl := byte(0)
+						if sent == "rle" {
+							wire, fl = rleCompress(p), 1
+						}
+						flat := wire
+						if !(proto == "connect" && kind == "unary") {
+							flat = append(frame(fl, wire), frame(fl, wire)...)
+						}
+						hreqOp(c, fmt.Sprintf("hreq proto=%s kind=%s max=%d sent=%s tmo=- flat=%s tail=eof seg=-", proto, kind, max, hx([]byte(sent)), hx(flat)))
+					}
+				}
+			}
 			for i := 0; i < n; i++ {
 				sent := []string{"", "", "", "rle", "rle", "identity", "br", "zz"}[r.Intn(8)]
 				comp := sent == "rle"
 				max := []int{0, 0, 0, 8, 64}[r.Intn(5)]
+				if r.Chance(8) { // the largest limits there are: nothing may wrap around
+					max = []int{math.MaxInt64, math.MaxInt64 - 1, 1 << 32, math.MaxInt32}[r.Intn(4)]
+				}
 				var flat []byte
 				if proto == "connect" && kind == "unary" {
 					p := genPayload(r, 80)
@@ -400,7 +447,7 @@ func streamReq(c *Ctx) {
 				tmo := ""
 				if r.Chance(15) {
 					if proto == "connect" {
-						tmo = []string{"5000", "abc", "99999999999", "-5", "", "0", "-0", "+5000"}[r.Intn(8)]
+						tmo = []string{"5000", "abc", "99999999999", "-5", "", "0", "-0", "+5000", "00000000100", "+1234567890", "-9300000000000", "0000000000000000000000000000005"}[r.Intn(12)]
 					} else {
 						tmo = []string{"5S", "5", "S", "999999999S", "-1S", "5x", "100m", "0S", "0n", "00000000H"}[r.Intn(10)]
 					}
@@ -419,7 +466,7 @@ func streamReq(c *Ctx) {
 				if r.Chance(20) {
 					flags += " ct2=1"
 				}
-				if proto == "connect" && kind == "unary" && max > 0 && r.Chance(50) {
+				if proto == "connect" && kind == "unary" && max > 0 && max < 1<<20 && r.Chance(50) {
 					// bodies of exactly max-1, max, max+1 bytes
 					flat = bytes.Repeat([]byte{7}, max-1+r.Intn(3))
 					sent, comp = "", false
